@@ -15,7 +15,7 @@ from typing import Dict
 sys.path.insert(0, os.path.dirname(os.path.abspath(__file__)))
 import symtorch  # noqa: E402
 
-REPO_SRC = os.environ.get("DEEPALI_SRC", "/repo/src")
+REPO_SRC = os.environ.get("DEEPALI_SRC", os.path.join(os.environ.get("DEEPALI_REPO", "/repo"), "src"))
 
 
 class SymLoader:
